@@ -411,12 +411,60 @@ fn sums(c: &mut Ctx, xs: &[i128]) {
     }
 }
 
+/// Long sums: the exact total of thousands of large amounts exceeds 2^64 (8785 x MAX_MONEY is the
+/// first multiple that does), so an implementation that accumulates in a machine word before checking
+/// the range wraps or overflows where the checked fold must answer `None`.
+fn long_sums(c: &mut Ctx, n: usize, v: i128, jitter: i128) {
+    let xs: Vec<i128> = (0..n).map(|i| (v - (i as i128 % (jitter + 1))).max(0)).collect();
+    let inp = json!({"n": n, "each": v.to_string(), "jitter": jitter.to_string()});
+    let total: i128 = xs.iter().sum();
+    let prefix_ok = {
+        let mut acc = 0i128;
+        xs.iter().all(|x| {
+            acc += x;
+            in_u(acc)
+        })
+    };
+    let vs: Vec<Zatoshis> = xs.iter().map(|x| Zatoshis::from_u64(*x as u64).unwrap()).collect();
+    let bs: Vec<ZatBalance> = xs.iter().map(|x| ZatBalance::from_i64(*x as i64).unwrap()).collect();
+    c.r.evals(5);
+    c.r.count("long_sums", 1);
+    if total >= 1i128 << 64 {
+        c.r.count("long_sums_with_exact_total_beyond_u64", 1);
+    }
+    for (name, g) in [
+        ("Sum<Zatoshis>:long", guard(|| vs.iter().copied().sum::<Option<Zatoshis>>().map(zu))),
+        ("Sum<&Zatoshis>:long", guard(|| vs.iter().sum::<Option<Zatoshis>>().map(zu))),
+        ("ZatBalance::sum:long", guard(|| ZatBalance::sum(bs.iter().copied()).map(zb))),
+        ("Sum<ZatBalance>:long", guard(|| bs.iter().copied().sum::<Option<ZatBalance>>().map(zb))),
+        ("Sum<&ZatBalance>:long", guard(|| bs.iter().sum::<Option<ZatBalance>>().map(zb))),
+    ] {
+        match g {
+            Ok(Some(t)) if t == total && in_u(total) => {}
+            Ok(None) if !prefix_ok => {}
+            other => c.viol(name, format!("{other:?}, exact total {total}, every prefix in range: {prefix_ok}"), inp.clone()),
+        }
+    }
+}
+
 fn main() {
     vh_common::install_panic_hook();
     let args = Args::parse();
     let mut c = Ctx {
         r: Reporter::new("C09", &args),
     };
+    {
+        let m = M;
+        let mut rng = vh_common::rng(args.shard_seed(), 909);
+        for (n, v, j) in [(8784usize, m, 0i128), (8785, m, 0), (8786, m, 0), (9000, m, 0), (20_000, m, 3), (8785 * 2, m / 2 + 1, 0), (17_570, m / 2, 1), (300, 7, 2), (5000, 1_000_000, 0)] {
+            long_sums(&mut c, n, v, j);
+        }
+        for _ in 0..6 {
+            let n = rng.gen_range(8_000..30_000);
+            let v = m - rng.gen_range(0..1_000_000);
+            long_sums(&mut c, n, v, rng.gen_range(0..5));
+        }
+    }
     let l = lattice();
     let _ = MAX_BALANCE;
 
